@@ -41,12 +41,12 @@ CHECKS = {
             TB + "Declined: 'observes one CancelledError at its next suspension point' (Task semantics). F1 shared."),
     "C07": ("cancel_group validates first and raises only TaskGroupNotFound; cancel_all returns only with an empty table and hands every entry to the helper; spawners cancelled before "
             "members; member loop exhausts the register; cancelled spawners remembered; CANCEL-STOPS typestate on all three spawner loops; atomic slot hand-off (L-LOCK); "
-            "who-may-remove groups.",
+            "who-may-remove groups; register membership premise (a task is findable only through the register filed under its group).",
             "dominance/reachability + iteration typestate (CANCEL-STOPS) + who-may tables", "5 C07",
             TB + "Declined: re-entrant cancel from the group's own iterator (excluded by the property); progress of sibling groups (liveness)."),
     "C08": ("Order lock -> spawner waits -> task wait (all three registries) -> forget -> _closed.set() by completion-dominance; who-may set/clear the closed event; GATHER-COMPLETE "
             "(no swallowed early completion; cancelled-spawner gather uses return_exceptions=True); closed pools reject first (precedence in _check_start, VALIDATE-FIRST); "
-            "PoolIsLocked unreachable from spawners; HANDOFF shared.",
+            "PoolIsLocked unreachable from spawners; FORGET-ONLY-GATHERED (may-analysis of registries that can hold an un-gathered task); HANDOFF shared.",
             "completion-dominance on the CFG + GATHER-COMPLETE rule + constant propagation", "5 C08",
             TB + "Declined: 'returns only after every task finished' as a temporal statement (follows from the order + trusted gather). F1 shared."),
     "C09": ("VALIDATE-FIRST on every spawning entry point and the pool_size setter (no trace completes before any raising exit), precedence type-check < closed < locked, raise inventory "
@@ -60,16 +60,16 @@ CHECKS = {
             "wrapper argument, task name and return value; name templates; per-instance state; index from _add_pool; callback id by typestate.",
             "who-may-write + path counting + abstract string evaluation + typestate (ID role)", "5 C11", TB + "Declined: density as a numeric statement over histories."),
     "C12": ("Typestate (slot released exactly once before the end callback on every edge kind), no swallowing of user exceptions in the wrapper / callbacks executor, spawner "
-            "skip-on-raise typestate, return_exceptions wiring into every task gather, only user steps may raise in the life-cycle functions (registry-integrity lemma checked).",
+            "skip-on-raise typestate, return_exceptions wiring into every task gather, FORGET-ONLY-GATHERED in gather_and_close, only user steps may raise in the life-cycle functions (registry-integrity lemma checked).",
             "typestate + exceptional-edge reachability + may-raise analysis", "5 C12", TB + "Declined: 'every other task proceeds exactly as if it had succeeded' (behavioural)."),
     "C13": ("SNAPSHOT-FORGET (removals after a suspension keyed by a pre-await snapshot whose tasks were gathered, or guarded by done()), flush has no effect on running tasks/other "
             "state, exit dominated by the forgetting of both registries, return_exceptions wiring, no other raising step.",
             "SNAPSHOT-FORGET data-flow rule + effect closure + dominance", "5 C13", TB + "Declined: overlapping flushes as a temporal statement (covered per call by the snapshot rule)."),
     "C14": ("Idiom-based: ids drawn from the reversed running registry, prefix bounded by num with the test before the append, delegated once to cancel(*ids), same list returned, "
-            "stop_all == stop(num_running); cancel's own rules shared. Unrecognised computations are inconclusive.",
+            "stop_all == stop(num_running); the bound is the num parameter itself (`num or x` makes 0 mean all); cancel's own rules shared. Unrecognised computations are inconclusive.",
             "syntax-directed idiom recognition + CFG dominance", "5 C14", TB + "Declined: nothing else is structural. F1 shared."),
     "C15": ("Getter must read configuration-only paths (violated: F5a), setter must not overwrite the occupancy-dependent counter with its parameter (F5b), raising the limit must wake "
-            "waiters (F5c), validation precedes the write with the exact comparison.",
+            "waiters (F5c), validation precedes the write with the exact comparison, the semaphore object waiters are parked on is bound once.",
             "effect analysis (who writes the paths the getter reads) + VALIDATE-FIRST", "5 C15", TB + "F5a-c are recorded known findings; mixed arithmetic is inconclusive, not a violation."),
     "C16": ("Handshake sequence by completion-dominance (read, json, parser with the session's buffer and the client's width, add_subparsers, add_class_commands(run-time class), "
             "name + newline, drain); command surface (getmembers, '_' filter with public_only default True, function/property dispatch, dash names, member stored under CMD, help enabled); "
@@ -78,7 +78,7 @@ CHECKS = {
             TB + "Declined: the bytes on the wire; help text for every width (argparse run-time behaviour). F6 is a recorded known finding."),
     "C17": ("Dispatch structure of _exec_method_and_respond (self, positional kinds in signature order, *args after, rest by keyword, through return_or_exception), RESULT-USED at all "
             "three return_or_exception call sites with the reply forms ok-if-None-else-str / str, add_function_arg mapping incl. the bool-defaults-to-False table over the pool classes, "
-            "return_or_exception semantics (called once, awaited under the coroutine guard, Exception returned); annotation table shared (F6).",
+            "return_or_exception semantics (called once, awaited under the coroutine guard, Exception returned); TOKENS (what reaches parse_args is the line split at blanks, words unchanged); annotation table shared (F6).",
             "syntax-directed structure rules + RESULT-USED data-flow + path counting", "5 C17",
             TB + "Declined: equality of effects for every argument value (translation over run-time values). F6 shared (known finding)."),
     "C18": ("HATCHES (all four argparse escape hatches overridden, no print/sys.std*/exit in parser, session, server; positive control in client), per-iteration protocol of listen by "
